@@ -2,7 +2,7 @@
     modified. *)
 From Coq Require Import ZArith List Bool.
 Import ListNotations.
-From SymfcV Require Import PyPrelude OrdersThm Api.
+From SymfcV Require Import PyPrelude OrdersThm Api SolverObj.
 From SymfcG Require Import Orders SolverStruct.
 Open Scope Z_scope.
 
@@ -51,3 +51,22 @@ Theorem c12_no_inplace_on_shared_state :
   inplace_scaling_only_on_fresh_compact_matrices_and_restored = true /\
   dispatch_wf = true /\ object_state_is_per_instance = true.
 Proof. exact (conj eq_refl (conj eq_refl (conj dispatch_wellformed eq_refl))). Qed.
+
+(** FCSolver objects (the quantifier names them): with `full_fc` / `compact_fc` plain properties over the current
+    coefficients (regenerated: SolverStruct), a solver reused after ANY history of solves and reads returns, for dataset
+    d, exactly what a fresh solver returns; a read always reflects the last solve. *)
+Theorem c12_reused_solver_equals_fresh (dataset coefs tensor : Type) (fit : dataset -> coefs) (expand : bool -> coefs -> tensor)
+    (h : list (sop dataset)) d (compact : bool) :
+  snd (sstep dataset coefs tensor fit expand (fst (sstep dataset coefs tensor fit expand (srun dataset coefs tensor fit expand h None) (Solve dataset d)))
+             (if compact then ReadCompact dataset else ReadFull dataset))
+  = snd (sstep dataset coefs tensor fit expand (fst (sstep dataset coefs tensor fit expand None (Solve dataset d)))
+             (if compact then ReadCompact dataset else ReadFull dataset)).
+Proof. exact (reused_solver_equals_fresh dataset coefs tensor fit expand h d compact). Qed.
+Print Assumptions c12_reused_solver_equals_fresh.
+
+Theorem c12_read_returns_last_solve (dataset coefs tensor : Type) (fit : dataset -> coefs) (expand : bool -> coefs -> tensor)
+    (h : list (sop dataset)) (compact : bool) :
+  snd (sstep dataset coefs tensor fit expand (srun dataset coefs tensor fit expand h None) (if compact then ReadCompact dataset else ReadFull dataset))
+  = option_map (fun d => expand compact (fit d)) (last_solve dataset h None).
+Proof. exact (read_returns_last_solve dataset coefs tensor fit expand h compact). Qed.
+Print Assumptions c12_read_returns_last_solve.
